@@ -680,7 +680,13 @@ class Interp:
         outs = [self.eval_closed(b, *ops) for b in branches]
         res = []
         for k in range(len(outs[0])):
+            if all(not is_sym(o[k]) for o in outs) and all(np.array_equal(np.asarray(outs[0][k]), np.asarray(o[k])) for o in outs[1:]):
+                res.append(np.asarray(outs[0][k]))      # the same concrete value on every branch stays concrete
+                continue
+
             def sel(*cases):
+                if all(_same(c, cases[0]) or (z3.is_expr(c) and z3.is_expr(cases[0]) and c.eq(cases[0])) for c in cases[1:]):
+                    return cases[0]
                 expr = cases[-1]
                 for j in range(len(cases) - 2, -1, -1):
                     if z3.is_bool(i):
